@@ -168,8 +168,17 @@ class C01(Prop):
                ((0,), (0,), (1, 0), (1, 1), (1, 0), (1, 1), (1, 0), (1, 1), (1, 0), (1, 1), (0,), (1, 2), (1, 2), (1, 2)),
                ((0,), (1, 0), (1, 0), (1, 0), (1, 0), (1, 0), (0,), (0,), (1, 2), (1, 1), (1, 2), (1, 1), (1, 2), (1, 1)),
                ((0,), (0,), (0,), (1, 2), (1, 2), (1, 2), (1, 2), (1, 2), (1, 1), (1, 0), (1, 1), (1, 0), (1, 1), (1, 0)),
-               ((0,), (1, 0), (0,), (1, 1), (2, 0), (1, 1), (1, 1), (0,), (1, 2), (1, 2), (1, 2), (1, 2))]
+               ((0,), (1, 0), (0,), (1, 1), (2, 0), (1, 1), (1, 1), (0,), (1, 2), (1, 2), (1, 2), (1, 2)),
+               # one iterator three rows ahead, the lagging one reads an old record, then the leader draws a new row
+               ((0,), (0,), (1, 0), (1, 0), (1, 0), (1, 0), (1, 1), (1, 1), (1, 0), (1, 1), (1, 1), (1, 1), (1, 1), (0,),
+                (1, 2), (1, 2), (1, 2), (1, 2), (1, 2)),
+               ((0,), (1, 0), (1, 0), (1, 0), (0,), (1, 1), (1, 0), (1, 0), (1, 1), (1, 1), (1, 1), (1, 1), (1, 1))]
         small = (('k', 'v'), (1, 'x'), (0, 'y'), (1, 'z'))
+        longer = (('k', 'v'), (1, 'a'), (0, 'b'), (1, 'c'), (2, 'd'), (0, 'e'))
+        for ops in hot[-2:]:
+            yield Case('dg_run', (longer[0], longer[1:], ops))
+            for n in (None, 2, 3):
+                yield Case('cv_run', (n, longer, ops))
         for ops in hot:
             for bs in (None, 2):
                 yield Case('sv_run', ('k', False, bs, True, small, ops))
